@@ -63,7 +63,8 @@ pub fn padding_any(inv: bool) -> BS<u8> {
 /// sizes of lists limited to 31
 pub fn count31(inv: bool) -> BS<usize> {
     if inv {
-        prop_oneof![2 => Just(0usize), 2 => Just(1), 2 => Just(2), 1 => Just(30), 2 => Just(31), 2 => Just(32), 1 => Just(33), 3 => 0usize..=31].boxed()
+        // over the limit: just over, and the values that alias a legal count when truncated to 8 bits (256+k)
+        prop_oneof![2 => Just(0usize), 2 => Just(1), 2 => Just(2), 1 => Just(30), 2 => Just(31), 2 => Just(32), 1 => Just(33), 1 => select(vec![255usize, 256, 257, 272, 287, 288, 512, 543]), 3 => 0usize..=31].boxed()
     } else {
         prop_oneof![2 => Just(0usize), 2 => Just(1), 2 => Just(2), 1 => Just(30), 2 => Just(31), 3 => 0usize..=31].boxed()
     }
@@ -73,7 +74,7 @@ pub fn count31(inv: bool) -> BS<usize> {
 pub fn byte_len(max: usize, inv: bool) -> BS<usize> {
     let top = max.saturating_sub(4);
     if inv {
-        prop_oneof![3 => 0usize..=5, 2 => top..=max, 1 => (max + 1)..=(max + 2), 1 => Just(max + 45), 4 => 0usize..=max].boxed()
+        prop_oneof![3 => 0usize..=5, 2 => top..=max, 1 => (max + 1)..=(max + 2), 1 => Just(max + 45), 1 => select(vec![256usize, 257, 260, 300, 511, 512, 767]), 4 => 0usize..=max].boxed()
     } else {
         prop_oneof![3 => 0usize..=5, 2 => top..=max, 4 => 0usize..=max].boxed()
     }
